@@ -703,6 +703,10 @@ func same(a, b []byte) bool {
 }
 
 func isnil(b []byte) bool { return b == nil }
+
+// disjoint: the non-nil slices lie in pairwise different allocations (not
+// observable by executable code; replays treat it as true).
+func disjoint(xs ...[]byte) bool { return true }
 `
 
 func (sf *SpecFile) genLines() []string {
@@ -714,7 +718,7 @@ func (sf *SpecFile) genLines() []string {
 
 func trimSpaceStr(s string) string { return strings.Join(strings.Fields(s), " ") }
 
-var preludeRe = regexp.MustCompile(`(^|[^.\w])(assert|assume|implies|seqeq|cat|sub|val|u16|u32|forall|exists|suffix|within|fresh|same|isnil)\(`)
+var preludeRe = regexp.MustCompile(`(^|[^.\w])(assert|assume|implies|seqeq|cat|sub|val|u16|u32|forall|exists|suffix|within|fresh|disjoint|same|isnil)\(`)
 
 // renamePrelude gives the ghost vocabulary collision-free names in the
 // generated Go (contracts are written with the short names).
